@@ -278,7 +278,10 @@ class Gen:
         if has_else:
             lines.append("ELSE")
             for t in targets:
-                lines.append(f"  {t} = {self.expr([p for p in pool if p not in new_targets])}")
+                if r.random() < 0.25:
+                    lines.append(f"  {t} = {r.choice(['0', '0.0', '0', '1'])}")  # a constant fallback branch
+                else:
+                    lines.append(f"  {t} = {self.expr([p for p in pool if p not in new_targets])}")
         if special == "else_only" and assigned:
             # a symbol with a previous value assigned only in the ELSE branch
             t = r.choice(assigned)
@@ -543,6 +546,7 @@ def gen_model(rng, strata=(), simple=False):
         pool = assigned + [f"P{j}" for j in range(1, n_eta + 1)]
         body.append(f"IPRED = {g.expr(pool)}")
         body.append(_error_line(r, "IPRED", n_eps))
+        body += _after_y(r, g, ["IPRED"] + assigned)
         theta_txt, _ = g.theta_records(n_theta)
         code = "$PRED\n" + "\n".join(body)
         sub = ""
@@ -689,6 +693,7 @@ def gen_model(rng, strata=(), simple=False):
         err_pre, err_assigned = g.statements(["F"] + COVS, r.randint(0, 3), prefix="E", cond_vars=COVS + ["TIME"])
         lines_err += ["IPRED = F"] + err_pre
         lines_err.append(_error_line(r, "IPRED", n_eps))
+        lines_err += _after_y(r, g, ["IPRED"] + err_assigned)
         theta_txt, _ = g.theta_records(n_theta, positive=[True] * n_theta)
         code = "$PK\n" + "\n".join(lines_pk) + "\n" + "\n".join(x for x in recs_mid if x.startswith("$DES")) + \
                ("\n" if any(x.startswith("$DES") for x in recs_mid) else "") + "$ERROR\n" + "\n".join(lines_err)
@@ -704,6 +709,24 @@ def gen_model(rng, strata=(), simple=False):
                                               "$ESTIMATION METHOD=1 INTERACTION MAXEVALS=9999"]) + "\n"
     meta["used"] = sorted(g.used)
     return {"text": text, "data": dataset_text(cols, rows), "cols": cols, "rows": rows, "meta": meta}
+
+
+def _after_y(r, g, names):
+    """Statements after the Y statement that re-assign symbols Y was computed from (e.g. a log-scale copy for a table):
+    legitimate NM-TRAN; Y keeps the value it got when its statement was executed."""
+    if r.random() >= 0.25:
+        return []
+    out = []
+    for _ in range(r.randint(1, 2)):
+        n = r.choice(names)
+        form = r.randrange(3)
+        if form == 0:
+            out.append(f"{n} = LOG(1 + ({n})**2)")
+        elif form == 1:
+            out.append(f"{n} = {n}*{g.lit()} + {g.lit()}")
+        else:
+            out.append(f"{n} = {g.expr(names)}")
+    return out
 
 
 def _error_line(r, ipred, n_eps):
